@@ -18,6 +18,11 @@ CHECKS = {
    text="For every configuration in a stated finite product (partition contents, writes per chunk, spill size, header/footer, writer limits) the reachable states of EVERY binary merge tree over the partitions are computed by interval dynamic programming whose transitions are calls of the real append/merge/spill/finalise code against a recording writer; all stream, part-id, part-size, finalise and callback invariants are evaluated on every reachable root. The real mpu_write dask graphs are additionally executed task by task in every order within 1 (quick) / 2 (thorough) deviations from dask's static order and must end in a final writer log the DP also reaches.",
    note="Bounds: <=4 (quick) / <=6 (thorough) partitions, <=3 chunks per partition, min part 4 bytes. Recording writer is sequentially consistent (writer concurrency is C18). No separate model: every explored trace is an implementation trace.",
    design="4/C06", thorough=True),
+ "C18": dict(level="model_checking", engine="E3a+E1",
+   technique="stateless thread-schedule exploration with iterative preemption bounding on the real writer (sys.settrace line-level baton, cooperative fake lock/Variable/S3 client) + exhaustive sink/limit enumeration",
+   text="Every interleaving of 2 workers with <=2 preemptions and 3 workers with <=1 (thorough: <=3 / <=2) doing their first write through the real DelayedS3Writer is executed under a controlled scheduler whose scheduling points are every source line of cog/_s3.py and every operation of the fake process lock, distributed lock, shared variable and storage client, in three set-ups (no client + shared object; client + shared object; client + per-worker copies). Each schedule is judged: exactly one initiation, every part/complete under that id, no exception, no deadlock. Failing schedules are replayed twice for determinism. MPUFileSink finalisation is enumerated over part counts 1..4 x sizes {0,1,5,4096} x parts-directory placement (incl. another filesystem) x keep_parts; limit accessors over every subset of limit kwargs.",
+   note="distributed.Lock/Variable replaced by sequentially consistent fakes; Variable.get on an unset variable = immediate timeout; finalise runs after all writes (task dependency). Interleavings inside one source line or inside botocore are not explored.",
+   design="4/C18", thorough=True),
 }
 NOT_YET = "check not built yet in this session (design in DESIGN.md section 4); no claim made"
 
